@@ -17,17 +17,21 @@ RULE = ("(a) exhaustive: file absent, empty, and every file of up to 3 (quick) /
         "libsnoopy.so instance, blank, path with the library path as prefix / as suffix, shared line, CR-LF) x final newline "
         "yes/no; (b) Hypothesis line grammar with generated foreign paths, comments mentioning the library 0..3 times, "
         "indented lines, trailing blanks/tabs/comments. Each state: real `snoopyctl enable`, compared with the model of the "
-        "property text (bytes + exit status), then `enable` again (idempotence), then `status`. non-trivial = content with a "
+        "property text (bytes + exit status; the command is also started with stdin/stdout/stderr closed in several combinations), then `enable` again (idempotence), then `status`. non-trivial = content with a "
         "comment mentioning the library, a near-miss path, an own entry with trailing text, CR-LF or a missing final "
         "newline; distinct by content")
 
 
-def evaluate_content(ctl, content):
+CLOSED = [[], [], [], [], [1], [2], [1, 2], [0, 1, 2], [0]]
+
+
+def evaluate_content(ctl, content, closed=()):
     P = ctl.P
     old = ctl.subst(content)
     ctl.put(old)
     old_eff = old or b""
-    rc, out, err = ctl.run(ACTION)
+    # the command may be started without some of its standard descriptors (`snoopyctl ... >&-`): the file must come out the same
+    rc, out, err = ctl.run(ACTION, closed=closed)
     if rc < 0 or rc in (134, 139):
         raise Failure("snoopyctl enable crashed", {"status": rc, "stderr": err[-1500:]}, key="crash")
     new = ctl.get()
@@ -57,13 +61,13 @@ def evaluate_content(ctl, content):
 def evaluate(env, c):
     if not hasattr(env, "ctl"):
         env.ctl = preload.Ctl(next(iter(env.builds.values())), os.path.join(env.run.dir, "ctl-%d" % os.getpid()))
-    evaluate_content(env.ctl, c["content"])
+    evaluate_content(env.ctl, c["content"], tuple(c.get("closed", ())))
 
 
 def classify(c):
     ct = c["content"]
     if ct is None:
-        return None, ["absent"]
+        return None, ["absent"] + (["started-without-fd:" + ",".join(map(str, c["closed"]))] if c.get("closed") else [])
     lines = ct.split(b"\n")
     comment_mention = any(l.startswith(b"#") and (b"libsnoopy.so" in l or preload.PH in l) for l in lines)
     near = any((preload.PH + b"x") in l or (b"/pre" + preload.PH) in l or (preload.PH + b".1") in l or (preload.PH + b"~") in l or (b"x" + preload.PH) in l for l in lines)
@@ -76,7 +80,9 @@ def classify(c):
                  (crlf, "crlf"), (nonl, "no-final-newline"), (preload.PH in ct, "own-path-present")):
         if f:
             cls.append(n)
-    return (ct if nontriv else None), cls
+    if c.get("closed"):
+        cls.append("started-without-fd:" + ",".join(map(str, c["closed"])))
+    return ((ct, tuple(c.get("closed", ()))) if nontriv else None), cls
 
 
 _EX = {}
@@ -91,11 +97,11 @@ def exhaustive_worker(args):
     for n, content in enumerate(preload.exhaustive_contents(maxlines)):
         if n % nshards != idx:
             continue
-        c = {"content": content}
+        c = {"content": content, "closed": CLOSED[n % len(CLOSED)]}
         key, cls = classify(c)
         local.count(key, ["exhaustive"] + cls, sample=c)
         try:
-            _EX["eval"](ctl, content)
+            _EX["eval"](ctl, content, tuple(c["closed"]))
         except Failure as f:
             if local.is_known(f.key):
                 local.known_hit(f.key, f.what)
@@ -106,7 +112,7 @@ def exhaustive_worker(args):
 
 def strategy():
     from hypothesis import strategies as st
-    return preload.st_content().map(lambda b: {"content": b})
+    return st.builds(lambda b, cl: {"content": b, "closed": cl}, preload.st_content(), st.sampled_from(CLOSED))
 
 
 def main(pid=PID, rule=RULE, eval_content=None):
